@@ -10,6 +10,9 @@ from sklearn.model_selection import train_test_split
 from . import ops
 
 GRID = [[0, 0], [0, 1], [1, 0], [1, 1], [2, 0], [0, 2], [2, 1], [1, 2], [2, 2], [0, 0], [1, 1], [2, 0]]
+# unequal column scales, no duplicate rows: variance / covariance based metrics are well defined and sensitive
+FGRID = [[0.1, 3.0], [1.2, 1.0], [2.5, 7.0], [0.7, 4.0], [1.9, 0.5], [3.1, 6.0], [0.4, 2.0], [2.2, 5.5], [1.5, 3.5], [2.8, 1.5],
+         [0.9, 6.5], [3.4, 2.5]]
 MGRID = [[0, 0], [2, 2], [3, 0], [3, 3], [4, 0], [0, 0], [2, 2], [3, 0], [0, 0], [4, 0], [3, 3], [2, 2]]
 
 
